@@ -35,6 +35,7 @@ import PV.Driver.StrTableOps
 import PV.Driver.AnalysisHistOps
 import PV.Driver.OpsSyntaxOps
 import PV.Driver.CCodeProgOps
+import PV.Driver.MemoArgsOps
 /-
   Driver operations: one request S-expression in, one reply S-expression out.
 -/
@@ -242,6 +243,7 @@ def handlers : List (Sexp → Option Sexp) :=
    , handleAnalysisHist
    , handleOpsSyntax
    , handleCCodeProg
+   , handleMemoArgs
    -- HANDLERS
   ]
 
